@@ -163,6 +163,7 @@ type State struct {
 	noted map[*ssa.Function]bool
 	constCache map[int]*Term
 	hadCandidate bool
+	usedUF bool // the path used an uninterpreted function (its model need not replay natively)
 	known map[int]*Term // terms pinned to a constant by a taken equality on this path
 	choicesPinned map[string]int64
 	concreteFails []string
@@ -692,7 +693,7 @@ func (e *Engine) finishPath(st *State, end pathEnd) {
 	// things that need the solver come first (no lock held)
 	var sample string
 	var valid *Candidate
-	if end.status == "ok" && st.concrete == nil && !st.hadCandidate {
+	if end.status == "ok" && st.concrete == nil && !st.hadCandidate && len(st.h.stubs) == 0 && !st.usedUF {
 		res.mu.Lock()
 		n := res.PathsOK
 		res.mu.Unlock()
